@@ -44,6 +44,9 @@ func (raceDom) Gen(r *gen.R, tier string, emit func(string)) {
 		if i%4 == 1 {
 			emit(wire.Line("raceidx", strconv.Itoa(1+i%3), "0"))
 		}
+		if i%4 == 2 || i%4 == 3 {
+			emit(wire.Line("racelock", strconv.Itoa(i), "0"))
+		}
 		if i%3 == 0 {
 			emit(wire.Line("raceown", strconv.Itoa(i/3), strconv.Itoa(r.Intn(1000000))))
 			emit(wire.Line("racerestart", strconv.Itoa(1+i%4), strconv.Itoa(r.Intn(1000000))))
@@ -531,9 +534,61 @@ func raceIndexQueue(writers int) string {
 	return "done"
 }
 
+// raceKeyLock: while a write transaction on an id is open, no other transaction on that id - read or
+// write, with or without a store prefix - gets in. State that is only touched inside transactions on
+// one id therefore needs no synchronisation of its own.
+func raceKeyLock(variant int) string {
+	dir, err := os.MkdirTemp("", "verif-racelock")
+	if err != nil {
+		return "no-db"
+	}
+	defer os.RemoveAll(dir)
+	db, err := badger.Open(badger.DefaultOptions(dir).WithLogger(nil).WithSyncWrites(false))
+	if err != nil {
+		return "no-db"
+	}
+	defer db.Close()
+	type val struct{ K string }
+	st := badgerstore.NewStore(db).SetType(val{})
+	if variant%2 == 1 {
+		st.SetPrefix("locked")
+	}
+	w := st.Write("a")
+	w.Create(val{K: "0"})
+	w.Close()
+	shared := 0 // plain memory, touched only inside transactions on id "a"
+	var wg sync.WaitGroup
+	for g := 0; g < 4; g++ {
+		wg.Add(1)
+		go func(g int) {
+			defer wg.Done()
+			for i := 0; i < 25; i++ {
+				if g%2 == 0 {
+					t := st.Write("a")
+					shared++
+					t.Update(val{K: strconv.Itoa(i)})
+					time.Sleep(50 * time.Microsecond)
+					shared++
+					t.Close()
+				} else {
+					t := st.Read("a")
+					_ = shared
+					t.Value()
+					t.Close()
+				}
+			}
+		}(g)
+	}
+	wg.Wait()
+	if shared != 100 {
+		return "done-lost-updates"
+	}
+	return "done"
+}
+
 func (raceDom) Exec(a []string) string {
 	return Safe(func() string {
-		if len(a) < 3 || (a[0] != "race" && a[0] != "raceq" && a[0] != "raceown" && a[0] != "racerestart" && a[0] != "raceidx") {
+		if len(a) < 3 || (a[0] != "race" && a[0] != "raceq" && a[0] != "raceown" && a[0] != "racerestart" && a[0] != "raceidx" && a[0] != "racelock") {
 			return "bad-op"
 		}
 		w, _ := strconv.Atoi(a[1])
@@ -546,6 +601,9 @@ func (raceDom) Exec(a []string) string {
 		}
 		if a[0] == "raceidx" {
 			return raceIndexQueue(w)
+		}
+		if a[0] == "racelock" {
+			return raceKeyLock(w)
 		}
 		if a[0] == "racerestart" {
 			return raceRestart(w, uint64(seed))
